@@ -399,6 +399,80 @@ func VerifC11_EscapedInput() {
 	rt.Reach("escaped-end")
 }
 
+// a condition with an invalid operand (refused by its own check) inside and /
+// or / not groups at any position: a query that passes its check still
+// round-trips, and the parser either refuses the text or returns a query
+// whose text parses again
+func VerifC11_InvalidOperandInGroups() {
+	var bad Condition
+	switch rt.Choice("bad", 4) {
+	case 0:
+		bad = Where("a", Equals, "banana")
+	case 1:
+		bad = Where("a", Is, "great")
+	case 2:
+		bad = Where("a", FloatLessThan, "x")
+	case 3:
+		bad = Where("a", 200, "x") // no such operator
+	}
+	ok1, ok2 := Where("b", Exists, nil), Where("s", SameAs, "x")
+	var w Condition
+	shape := rt.Choice("shape", 11)
+	switch shape {
+	case 0:
+		w = Or(bad, ok1)
+	case 1:
+		w = Or(ok1, bad)
+	case 2:
+		w = And(bad, ok1)
+	case 3:
+		w = And(ok1, bad)
+	case 4:
+		w = Not(Or(ok1, bad))
+	case 5:
+		w = And(ok2, Or(ok1, bad))
+	case 6:
+		w = Or(ok2, And(ok1, bad))
+	case 7:
+		w = Or(ok1, ok2, bad)
+	case 8:
+		w = Not(bad)
+	case 9:
+		w = bad
+	case 10:
+		w = Or(And(ok1, ok2), Not(bad))
+	}
+	q := New("t:").Where(w)
+	_, err := q.Check()
+	rt.ObserveBool("built-query-refused", err != nil)
+	if err == nil {
+		roundTrip(q, "invalid-operand")
+	}
+	// the same through the parser
+	texts := []string{
+		"query t: where a == banana or b exists",
+		"query t: where b exists or a is great",
+		"query t: where b exists and a == banana",
+		"query t: where s sameas x and (a f< x or b exists)",
+		"query t: where not (b exists or a == banana)",
+		"query t: where b exists or s sameas x or a is great",
+		"query t: where (b exists and s sameas x) or not (a is great)",
+	}
+	text := texts[shape%len(texts)]
+	rt.SetUnwind(4 * (len(text) + 4))
+	pq, perr := ParseQuery(text)
+	rt.ObserveBool("text-refused", perr != nil)
+	if perr == nil {
+		printed := pq.Print()
+		back, err := ParseQuery(printed)
+		rt.Assert(err == nil, "invalid-operand/accepted-text-parses-again")
+		if err == nil {
+			rt.Assert(back.Print() == printed, "invalid-operand/print-stable")
+		}
+	}
+	rt.Reach("invalid-operand-end")
+}
+
 // groups of zero or one condition, nested and negated
 func VerifC11_GroupShapes() {
 	a, b := Where("n", GreaterThan, 1), Where("s", SameAs, "x")
